@@ -98,10 +98,13 @@ def _worker(histories):
     w = World()
     sym = {"hseq": z3.BitVec("hseq", 3), "pseq": z3.BitVec("pseq", 3), "hbytes": [z3.BitVec("hb%d" % i, 8) for i in range(6)]}
     # "fresh sequence counter": different from every counter that occurs in the history, including the counter bits of truncated frames
-    assume = w.assume + [sym["hseq"] != sym["pseq"], z3.Extract(7, 5, sym["hbytes"][0]) != sym["pseq"]]
+    assume_all = w.assume + [sym["hseq"] != sym["pseq"]]
     states = trans = 0
     PQ = R.consts.PhysicalQuantities
     for hist in histories:
+        # a 2-byte frame (control byte + length) is an accepted first frame: its counter bits are "used"; shorter frames are
+        # rejected with an error or ignored and must leave no trace, whatever counter bits they carry
+        assume = assume_all + ([z3.Extract(7, 5, sym["hbytes"][0]) != sym["pseq"]] if "trunc2" in hist else [])
         def snap(xs):
             # summaries are taken at once: a result must not change after it was returned (objects shared between
             # results - e.g. through a cache - would otherwise change on both sides of the comparison)
